@@ -170,6 +170,13 @@ impl $name {
     async fn freq_stop(&mut self) -> Result<(), Error> { self.call("FREQ:STOP".into()); Ok(()) }
     #[scpi(cmd = "MATH:ECHO?")]
     async fn echo(&mut self, v: u64) -> Result<u64, Error> { self.call(format!("MATH:ECHO?({v})")); Ok(v) }
+    #[scpi(cmd = "ERRor:VALue?")]
+    async fn err_value(&mut self, n: i16) -> Result<Error, Error> {
+        self.call(format!("ERR:VAL?({n})"));
+        Ok(ALL_ERRORS.iter().copied().find(|e| e.number() == n).unwrap_or(Error::Custom(n, "custom")))
+    }
+    #[scpi(cmd = "MATH:SIZE?")]
+    async fn size(&mut self, a: usize, b: isize) -> Result<(usize, isize), Error> { self.call(format!("MATH:SIZE?({a},{b})")); Ok((a, b)) }
 }
 }
 pub use $m::$name;
